@@ -39,6 +39,12 @@ def _base_metrics(n):
         "eig": (M.EigendecomposedPositiveDefiniteMatrix(Q.copy(), ev.copy()), Q @ np.diag(ev) @ Q.T),
     }
     if n >= 2:
+        # factor arrays with junk in the unused triangle (e.g. raw LAPACK potrf output): documented as ignored
+        junk_lo = L + np.triu(np.full((n, n), 0.7), 1)
+        junk_up = L.T + np.tril(np.full((n, n), -0.4), -1)
+        out["tri-lower-full"] = (M.TriangularFactoredPositiveDefiniteMatrix(junk_lo, factor_is_lower=True), L @ L.T)
+        out["tri-upper-full"] = (M.TriangularFactoredPositiveDefiniteMatrix(junk_up, factor_is_lower=False), L.T @ L)
+    if n >= 2:
         S = np.array([[0.5, 1.0, 0.0], [1.0, -1.5, 0.5], [0.0, 0.5, 2.0]])[:n, :n]
         w, V = np.linalg.eigh(S)
         out["softabs"] = (M.SoftAbsRegularizedPositiveDefiniteMatrix(S.copy(), 1.5),
